@@ -422,6 +422,12 @@ impl Accept {
     }
 
     fn accept(&mut self, sockets: &mut [ServerSocketInfo], token: usize) {
+        // Listeners are deregistered while paused, but a readiness event for one of them can be part
+        // of the same batch of poll events as the `Pause` interest and is then handled after it.
+        if self.paused {
+            return;
+        }
+
         while self.avail.available() {
             let info = &mut sockets[token];
 
